@@ -372,6 +372,134 @@ func verifC18Fetch(f []string) string {
 	return "err " + strconv.Itoa(resp.StatusCode) + tail
 }
 
+// verifC18FetchU: f = lfetchu method cid uuid peer. fetchRemoteCollectionByUUID is called the way
+// genericFederatedRequestHandler.ServeHTTP calls its delegates; the remote named by the UUID's prefix
+// is a scripted peer ("-": no RemoteClusters entry for it); the own cluster's entry and "*" are
+// present and must never be queried.
+func verifC18FetchU(f []string) string {
+	method := f[1]
+	cid, e1 := verifC18Unhex(f[2])
+	uuid, e2 := verifC18Unhex(f[3])
+	if e1 != nil || e2 != nil || (len(uuid) != 0 && len(uuid) != 27) || len(cid) != 5 || strings.ContainsAny(uuid+cid, " ?#%/\n") {
+		return "bad-op"
+	}
+	tr := &verifC18Transport{peers: map[string]*verifC18Peer{}, finished: make(chan struct{})}
+	cluster := &arvados.Cluster{ClusterID: cid, RemoteClusters: map[string]arvados.RemoteCluster{
+		cid: {Host: "self.example", Scheme: "https", Proxy: true},
+		"*": {Scheme: "https"},
+	}}
+	arvadostest.SetServiceURL(&cluster.Services.RailsAPI, "http://rails.example/")
+	var peer *verifC18Peer
+	if f[4] != "-" {
+		p, err := verifC18ParsePeer(f[4])
+		if err != nil {
+			return "bad-op"
+		}
+		peer = p
+		peer.isLocal = true // the delegate itself waits for this answer
+		if len(uuid) == 27 && uuid[:5] != cid {
+			tr.peers[uuid[:5]+".example"] = peer
+			cluster.RemoteClusters[uuid[:5]] = arvados.RemoteCluster{Host: uuid[:5] + ".example", Scheme: "https", Proxy: true}
+		}
+		close(peer.release)
+	}
+	h := &Handler{
+		Cluster:        cluster,
+		proxy:          &proxy{Name: "arvados-controller"},
+		secureClient:   &http.Client{Transport: tr},
+		insecureClient: &http.Client{Transport: tr},
+	}
+	gh := &genericFederatedRequestHandler{next: http.NotFoundHandler(), handler: h, matcher: collectionsRe}
+	ctx, clientCancel := context.WithCancel(context.Background())
+	defer clientCancel()
+	path := "/arvados/v1/collections"
+	if uuid != "" {
+		path += "/" + uuid
+	}
+	req := httptest.NewRequest(method, path, nil).WithContext(ctx)
+	req.Header.Set("Authorization", "Bearer v2/"+cid+"-gj3su-012345678901234/0123456789abcdefghijklmnopqrstuvwxyz0123456789abcd")
+	w := httptest.NewRecorder()
+	type res struct {
+		handled bool
+		pan     interface{}
+	}
+	resc := make(chan res, 1)
+	go func() {
+		var x res
+		defer func() {
+			if p := recover(); p != nil {
+				x.pan = p
+			}
+			resc <- x
+		}()
+		clusterID := ""
+		x.handled = fetchRemoteCollectionByUUID(gh, method, &clusterID, uuid, "", w, req)
+	}()
+	var r res
+	got := false
+	done := func() bool {
+		if got {
+			return true
+		}
+		select {
+		case r = <-resc:
+			got = true
+			close(tr.finished)
+			return true
+		default:
+			return false
+		}
+	}
+	cc := 0
+	verifC18Wait(func() bool {
+		return done() || (peer != nil && peer.kind == 'H' && verifC18Closed(peer.called))
+	}, 20*time.Second)
+	if !done() {
+		if peer != nil && peer.kind == 'H' && verifC18Closed(peer.called) {
+			cc = 1
+			clientCancel()
+		}
+		if !verifC18Wait(done, 30*time.Second) {
+			clientCancel()
+			verifC18Wait(done, 2*time.Second)
+			return "timeout"
+		}
+	}
+	if r.pan != nil {
+		return fmt.Sprintf("panic %v", r.pan)
+	}
+	leak := 0
+	if peer != nil && !verifC18Wait(func() bool { return atomic.LoadInt32(&peer.active) == 0 }, 10*time.Second) {
+		leak = 1
+	}
+	if atomic.LoadInt32(&tr.unknown) != 0 {
+		return "queried-unlisted-host"
+	}
+	if !r.handled {
+		if (peer != nil && verifC18Closed(peer.called)) || w.Body.Len() > 0 {
+			return "unhandled-but-active"
+		}
+		return "unhandled"
+	}
+	tail := fmt.Sprintf(" cc=%d leak=%d", cc, leak)
+	resp := w.Result()
+	body, _ := ioutil.ReadAll(resp.Body)
+	if resp.StatusCode == 200 {
+		var col arvados.Collection
+		if err := json.Unmarshal(body, &col); err != nil {
+			return "undecodable-output"
+		}
+		return "ok " + verifC18Hex(col.ManifestText) + tail + " src=" + verifC18Hex(col.UUID)
+	}
+	if peer != nil && peer.kind == 'S' && verifC18Closed(peer.called) {
+		if resp.StatusCode != peer.status || !bytes.Equal(body, peer.body) {
+			return "remote-status-not-forwarded-verbatim"
+		}
+		return "status " + strconv.Itoa(resp.StatusCode) + tail
+	}
+	return "err " + strconv.Itoa(resp.StatusCode) + tail
+}
+
 func verifC18Unhex(s string) (string, error) {
 	if s == "-" {
 		return "", nil
@@ -456,6 +584,8 @@ func verifC18Case(line string) (out string) {
 		return "ok " + verifC18Hex(col.ManifestText)
 	case f[0] == "lfetch" && len(f) == 5:
 		return verifC18Fetch(f)
+	case f[0] == "lfetchu" && len(f) == 5:
+		return verifC18FetchU(f)
 	case f[0] == "legacyraw" && len(f) == 2:
 		switch {
 		case f[1] == "reqerr":
